@@ -1,7 +1,7 @@
 (** C06 — the sequence Spyne publishes for a class, and how a list of children is matched
     against it. *)
 From Coq Require Import ZArith List Bool Lia ZifyBool Btauto.
-From SpyneV Require Import C06.Spec C06.LeafProofs.
+From SpyneV Require Import C06.Spec C06.Docs C06.LeafProofs.
 Import ListNotations.
 Open Scope Z_scope.
 
@@ -106,9 +106,6 @@ Lemma occ_ok_fld U f n : occ_ok (fld_edecl U f) n = (fl_min f <=? n) && ext_leb 
 Proof. unfold occ_ok, fld_edecl. rewrite eff_min_edecl, eff_max_edecl. reflexivity. Qed.
 
 (* ------------------------------------------------------------------ runs of equally named children *)
-Definition hd_is (ns name : text) (kids : list xnode) : bool :=
-  match kids with k :: _ => elt_is ns name k | [] => false end.
-
 Lemma span_nomatch ns name kids : hd_is ns name kids = false -> span_name ns name kids = ([], kids).
 Proof. destruct kids as [|k r]; [reflexivity|]. cbn. intros ->. reflexivity. Qed.
 
@@ -132,14 +129,6 @@ Proof.
     + intros H. injection H as <- <-. cbn. rewrite E. auto.
 Qed.
 
-Fixpoint split_runs (efs : list (text * fld)) (kids : list xnode) : list (list xnode) * list xnode :=
-  match efs with
-  | [] => ([], kids)
-  | (ns, f) :: r =>
-      let '(run, rest) := span_name ns (fl_name f) kids in
-      let '(runs, rest') := split_runs r rest in (run :: runs, rest')
-  end.
-
 Definition run_valid (U : univ) (velem : edecl -> xnode -> bool) (f : fld) (run : list xnode) : bool :=
   occ_ok (fld_edecl U f) (len_nodes run) && forallb (velem (fld_edecl U f)) run.
 Fixpoint runs_valid (U : univ) (velem : edecl -> xnode -> bool) (efs : list (text * fld)) (runs : list (list xnode)) : bool :=
@@ -149,14 +138,11 @@ Fixpoint runs_valid (U : univ) (velem : edecl -> xnode -> bool) (efs : list (tex
   | _, _ => false
   end.
 
-Definition nonempty {A} (l : list A) : bool := match l with [] => false | _ => true end.
-Definition count_nonempty {A} (ls : list (list A)) : nat := length (filter nonempty ls).
 
 Section Choice.
   Variable U : univ.
   Variable velem : edecl -> xnode -> bool.
 
-  Definition tagged (ns : text) (ms : list fld) : list (text * fld) := map (pair ns) ms.
   Definition empties {A B} (l : list A) : list (list B) := map (fun _ => []) l.
 
   Lemma empties_tagged {B} ns (ms : list fld) : @empties _ B (tagged ns ms) = empties ms.
@@ -301,7 +287,6 @@ Section Items.
   Definition L_parts (L : list (text * item)) : list (text * particle) :=
     flat_map (fun p => map (pair (fst p)) (ipart U (snd p))) L.
 
-  Definition is_nil_list {A} (l : list A) : bool := match l with [] => true | _ => false end.
 
   (** matching the members one after the other, by runs of equally named children *)
   Fixpoint items_match (L : list (text * item)) (kids : list xnode) : bool :=
@@ -314,17 +299,6 @@ Section Items.
     | (ns, IGroup _ ms) :: r =>
         let '(runs, rest) := split_runs (tagged ns ms) kids in
         runs_valid U velem (tagged ns ms) runs && items_match r rest
-    end.
-
-  (** at most one member of each choice group has children *)
-  Fixpoint groups_single (L : list (text * item)) (kids : list xnode) : bool :=
-    match L with
-    | [] => true
-    | (ns, IOne f) :: r =>
-        if is_elem f then groups_single r (snd (span_name ns (fl_name f) kids)) else groups_single r kids
-    | (ns, IGroup _ ms) :: r =>
-        Nat.leb (count_nonempty (fst (split_runs (tagged ns ms) kids))) 1
-        && groups_single r (snd (split_runs (tagged ns ms) kids))
     end.
 
   Definition group_wf (i : item) : Prop :=
